@@ -79,6 +79,13 @@ class Tree:
             for m in re.finditer(r"^\s*#\s*(?:if|elif)\b(.*)$", txt, re.M):
                 names.update(re.findall(r"defined\s*\(?\s*(\w+)", m.group(1)))
         self.macro_names = sorted(n for n in names if not n.startswith("_"))
+        # unit headers that include another unit header directly: (includer stem, included stem)
+        self.unit_includes = []
+        for u in self.units:
+            txt = _read(os.path.join(au, "units", u + ".hh")).decode("utf-8", "replace")
+            for m in re.finditer(r'^\s*#\s*include\s+"au/units/(\w+)\.hh"', txt, re.M):
+                if m.group(1) in self.units and m.group(1) != u:
+                    self.unit_includes.append((u, m.group(1)))
         self._fp = None
 
     def non_ascii_headers(self):
